@@ -1,15 +1,566 @@
+//! C15 — field names and numeric ids are identified consistently by the specification's
+//! hash (E1). See /verif/DESIGN.md section 5 and /verif/mc/README-dev.md.
+//!
+//! Subject: `candid::idl_hash`, `Label::{get_id, eq, cmp, hash}`, `field!/record!/variant!/
+//! service!`, `candid::utils::check_unique`, the text parsers (types and values), the binary
+//! header parser, `IDLValue::annotate_type`, and `#[derive(CandidType)]` (second copy of the
+//! hash, sorting, uniqueness assertion, `#[serde(rename)]`, raw identifiers).
+//! Oracle: R7 (`refmodel::hash::idl_hash`) for ids, R2 (`refmodel::wire`, strict) for the
+//! wire; expectations are computed from label ids only.
+//!
+//! `c15 --tier quick|thorough`, `c15 --replay <file>`, `c15 --prepare` (write and pre-build
+//! the scratch crates under /verif/work with target dir /verif/mc/target/derive_corpus).
+mod checks;
+mod derive;
 mod labels;
+mod macros;
+
+use checks::{CrossCase, LSpec, Shape};
+use labels::{h, quote_candid, Collisions};
+use mclib::engine::{finish, install_quiet_panic_hook, Ctx, Report, Tier};
+use refmodel::wire::Limits;
+use serde_json::{json, Value};
+
+fn parse_args() -> (Tier, Option<String>, Vec<String>) {
+    let args: Vec<String> = std::env::args().collect();
+    let mut tier = match std::env::var("VERIF_TIER").as_deref() {
+        Ok("thorough") => Tier::Thorough,
+        _ => Tier::Quick,
+    };
+    let mut replay = None;
+    let mut rest = vec![];
+    let mut i = 1;
+    while i < args.len() {
+        match args[i].as_str() {
+            "--tier" => {
+                i += 1;
+                tier = if args.get(i).map(|s| s.as_str()) == Some("thorough") { Tier::Thorough } else { Tier::Quick };
+            }
+            "--replay" => {
+                i += 1;
+                replay = args.get(i).cloned();
+            }
+            o => rest.push(o.to_string()),
+        }
+        i += 1;
+    }
+    (tier, replay, rest)
+}
+
+fn machinery_failure(msg: &str) -> ! {
+    eprintln!("MACHINERY-FAILURE property=C15: {msg}");
+    std::process::exit(2);
+}
+
+fn dedup(v: Vec<String>) -> Vec<String> {
+    let mut out: Vec<String> = vec![];
+    for s in v {
+        if !out.contains(&s) {
+            out.push(s);
+        }
+    }
+    out
+}
+
+/// Every name used anywhere (part 1 extras; thorough label alphabets).
+fn all_names(c: &Collisions) -> Vec<String> {
+    let mut v = labels::identifiers();
+    v.extend(labels::all_keywords());
+    v.extend(labels::unicode_set());
+    v.extend(labels::numeric_looking());
+    v.extend(labels::quoted_only());
+    for (a, b) in c.all_pairs() {
+        v.push(a);
+        v.push(b);
+    }
+    for (s, _) in &c.id_preimages {
+        v.push(s.clone());
+    }
+    dedup(v)
+}
+
+/// The label alphabet of parts 4 and 5a (quick tier): about 60 names of every class.
+fn lambda(c: &Collisions, tier: Tier) -> Vec<String> {
+    if tier == Tier::Thorough {
+        return all_names(c);
+    }
+    let mut v: Vec<String> = vec![];
+    for s in ["a", "b", "z", "A", "_a", "foo", "bar", "fooBar", "created_at_time", "Ok", "x1", "id"] {
+        v.push(s.into());
+    }
+    for s in ["type", "record", "nat", "service", "null", "true", "opt", "fn", "self", "class", "__proto__", "constructor"] {
+        v.push(s.into());
+    }
+    for s in ["\u{e9}", "e\u{301}", "\u{df}", "\u{540d}\u{524d}", "\u{1f600}", "\u{10ffff}", "\u{5e9}\u{5dc}\u{5d5}\u{5dd}", "\u{202e}abc", "a\u{200b}b", "\0", "a\0b", "\n"] {
+        v.push(s.into());
+    }
+    for s in ["", " ", "a b", "a-b", "a.b", "\"", "\\", "a\"b", "{", "//", "r#type", "9lives"] {
+        v.push(s.into());
+    }
+    for s in ["0", "1", "01", "42", "4294967295", "4294967296", "0x10", "-1"] {
+        v.push(s.into());
+    }
+    // one member of a colliding pair (its partner is a part 5 matter), names with extreme ids
+    if let Some((a, _)) = c.ident_pairs.first() {
+        v.push(a.clone());
+    }
+    if let Some((a, _)) = c.nonident_pairs.first() {
+        v.push(a.clone());
+    }
+    v.push(c.long_pair.0.clone());
+    for (s, id) in &c.id_preimages {
+        if [0, 1, 0x7fff_ffff, 0x8000_0000, 0xffff_ffff].contains(id) {
+            v.push(s.clone());
+        }
+    }
+    dedup(v)
+}
+
+/// Reduced label set of part 2.
+fn label_set(c: &Collisions, tier: Tier) -> Vec<LSpec> {
+    let names: Vec<String> = if tier == Tier::Thorough {
+        all_names(c)
+    } else {
+        let mut v: Vec<String> = vec![];
+        for s in ["a", "b", "ab", "ba", "foo", "bar", "id", "Ok", "type", "record", "fn", "class", "true", "", " ", "a b", "\"", "0", "1", "01", "4294967295", "\u{e9}", "e\u{301}", "\u{540d}\u{524d}", "\u{1f600}", "\u{5e9}\u{5dc}\u{5d5}\u{5dd}", "\0", "a\0b"] {
+            v.push(s.into());
+        }
+        for (a, b) in c.all_pairs() {
+            v.push(a);
+            v.push(b);
+        }
+        for (s, _) in &c.id_preimages {
+            v.push(s.clone());
+        }
+        dedup(v)
+    };
+    let mut out: Vec<LSpec> = vec![];
+    for (i, n) in names.iter().enumerate() {
+        out.push(LSpec::Named(n.clone()));
+        out.push(LSpec::Id(h(n)));
+        if i % 2 == 0 {
+            out.push(LSpec::Unnamed(h(n)));
+        }
+    }
+    for id in [0u32, 1, 2, 0x7fff_ffff, 0x8000_0000, 0xffff_fffe, 0xffff_ffff] {
+        out.push(LSpec::Id(id));
+        out.push(LSpec::Unnamed(id));
+    }
+    let mut uniq: Vec<LSpec> = vec![];
+    for l in out {
+        if !uniq.contains(&l) {
+            uniq.push(l);
+        }
+    }
+    uniq
+}
+
+/// (a_text, b_text, id_a, id_b) source spellings for part 5a.
+fn dup_pairs(c: &Collisions, lam: &[String]) -> Vec<(String, String, u32, u32)> {
+    let mut v: Vec<(String, String, u32, u32)> = vec![];
+    let q = quote_candid;
+    for (a, b) in c.all_pairs() {
+        let (ia, ib) = (h(&a), h(&b));
+        v.push((q(&a), q(&b), ia, ib));
+        v.push((q(&b), q(&a), ib, ia));
+        v.push((q(&a), ib.to_string(), ia, ib));
+        let unq = |s: &str| labels::is_ascii_ident(s) && !labels::CANDID_KEYWORDS.contains(&s);
+        if unq(&a) && unq(&b) {
+            v.push((a.clone(), b.clone(), ia, ib));
+        }
+        if unq(&a) {
+            v.push((a.clone(), q(&b), ia, ib));
+        }
+    }
+    for (i, l) in lam.iter().enumerate() {
+        let id = h(l);
+        v.push((q(l), q(l), id, id));
+        v.push((q(l), id.to_string(), id, id));
+        v.push((id.to_string(), q(l), id, id));
+        v.push((id.to_string(), id.to_string(), id, id));
+        v.push((q(l), format!("0x{id:x}"), id, id));
+        if labels::is_ascii_ident(l) && !labels::CANDID_KEYWORDS.contains(&l.as_str()) {
+            v.push((l.clone(), q(l), id, id));
+        }
+        // controls: distinct ids must be accepted and come out sorted
+        let m = &lam[(i + 1) % lam.len()];
+        let im = h(m);
+        if im != id {
+            v.push((q(l), q(m), id, im));
+            v.push((q(l), im.to_string(), id, im));
+            v.push((id.to_string(), im.to_string(), id, im));
+        }
+    }
+    v
+}
+
+/// Positional record fields vs explicit ids and names; verdicts from the spec's rule
+/// (an unlabelled field gets the previous field's id + 1, 0 for the first).
+fn shorthand_cases(c: &Collisions) -> Vec<(String, bool, bool)> {
+    let pre = |id: u32| c.id_preimages.iter().find(|(_, i)| *i == id).map(|(s, _)| quote_candid(s)).unwrap();
+    let (n0, n1, nmax) = (pre(0), pre(1), pre(u32::MAX));
+    let tys: Vec<(String, bool)> = vec![
+        ("nat; 0 : nat".into(), true),
+        ("0 : nat; nat".into(), false),
+        ("nat; nat; 1 : nat".into(), true),
+        ("1 : nat; nat; 2 : nat".into(), true),
+        ("5 : nat; nat; 6 : nat".into(), true),
+        ("5 : nat; nat; 7 : nat".into(), false),
+        (format!("nat; {n0} : nat"), true),
+        (format!("{n0} : nat; nat"), false),
+        (format!("{n1} : nat; {n0} : nat; nat"), true),
+        (format!("{n0} : nat; {n1} : nat; nat"), false),
+        (format!("{nmax} : nat; nat"), true),
+        ("4294967295 : nat; nat".into(), true),
+        ("4294967294 : nat; nat".into(), false),
+        ("4294967294 : nat; nat; 4294967295 : nat".into(), true),
+    ];
+    let mut out = vec![];
+    for (body, reject) in tys {
+        out.push((format!("(record {{ {body} }})"), true, reject));
+        // the same field list as a value
+        let vb = body.split(';').map(|f| {
+            let f = f.trim();
+            match f.rsplit_once(" : nat") {
+                Some((l, _)) => format!("{l} = 1"),
+                None => "1".to_string(),
+            }
+        }).collect::<Vec<_>>().join("; ");
+        out.push((format!("(record {{ {vb} }})"), false, reject));
+    }
+    out
+}
+
+fn sequences(alpha: &[u64], maxlen: usize) -> Vec<Vec<u64>> {
+    let mut out: Vec<Vec<u64>> = vec![vec![]];
+    let mut layer: Vec<Vec<u64>> = vec![vec![]];
+    for _ in 0..maxlen {
+        let mut next = vec![];
+        for s in &layer {
+            for a in alpha {
+                let mut t = s.clone();
+                t.push(*a);
+                next.push(t);
+            }
+        }
+        out.extend(next.iter().cloned());
+        layer = next;
+    }
+    out
+}
+
+const SERVICE_NAMES: &[&str] = &["a", "b", "ab", "foo", "bar", "type", "", " ", "a b", "\u{e9}", "e\u{301}", "\u{540d}\u{524d}", "0", "1", "4294967295", "get", "set"];
+
 fn main() {
-    let t = std::time::Instant::now();
-    let _ = labels::short_ident_collisions(3);
-    println!("short {:?}", t.elapsed());
-    let t = std::time::Instant::now();
-    let r = labels::brute_collisions(b" -.+/!?#abcde012", 1, 5, 3, 1_200_000, &|s| !labels::is_ascii_ident(s));
-    println!("brute {:?} {}", t.elapsed(), r.1);
-    let t = std::time::Instant::now();
-    let m = labels::Mitm::new();
-    println!("mitm new {:?}", t.elapsed());
-    let t = std::time::Instant::now();
-    let _ = m.preimage(0, "");
-    println!("mitm pre {:?}", t.elapsed());
+    install_quiet_panic_hook();
+    let (tier, replay, rest) = parse_args();
+    let coll = labels::find_collisions();
+    if let Err(e) = macros::sync_with_search(&coll) {
+        machinery_failure(&e);
+    }
+    if coll.ident_pairs.is_empty() || coll.nonident_pairs.is_empty() || coll.all_pairs().len() < 3 {
+        machinery_failure("collision search found fewer pairs than required");
+    }
+    if rest.iter().any(|a| a == "--prepare") {
+        match derive::prepare(&coll) {
+            Ok(m) => {
+                println!("C15 prepare: {m}");
+                std::process::exit(0);
+            }
+            Err(e) => machinery_failure(&e),
+        }
+    }
+    let lim = Limits::default();
+    if let Some(path) = replay {
+        std::process::exit(replay_case(&path, &coll, &lim));
+    }
+
+    let ctx = Ctx::new("C15", tier, tier.pick(150, 1200));
+    let mut rep = Report::new();
+    let mut notes: Vec<String> = vec![];
+
+    // ---- part 3 (first: everything else uses the pairs)
+    rep.count("collisions:pairs", coll.all_pairs().len() as u64);
+    for (a, b) in coll.all_pairs() {
+        if a == b || h(&a) != h(&b) {
+            machinery_failure("collision search returned a non-colliding pair");
+        }
+    }
+    notes.push(format!(
+        "part 3: colliding pairs (all verified with the specification hash): identifiers {:?}; non-identifiers {:?}; meet-in-the-middle (8 lower-case letters vs given name) {:?}; names with given ids {:?}; long ASCII pair {:?}",
+        coll.ident_pairs, coll.nonident_pairs, coll.preimage_pairs, coll.id_preimages, coll.long_pair
+    ));
+
+    // ---- part 1: idl_hash
+    let alpha = labels::alphabet40();
+    let maxlen = tier.pick(3, 4);
+    let total1 = labels::count_upto(40, maxlen);
+    let r = ctx.par_range("1a-idl_hash:all-strings-over-40-chars", total1, 4096, || (), |_, i, rep| {
+        let s = labels::nth_string(&alpha, i);
+        checks::check_hash(&s, rep);
+    });
+    rep.merge(r);
+    let mut extras: Vec<String> = all_names(&coll);
+    for b in 0u8..128 {
+        extras.push(std::iter::repeat(b as char).take(200).collect());
+    }
+    for ch in ['\u{80}', '\u{7ff}', '\u{800}', '\u{ffff}', '\u{10000}', '\u{10ffff}'] {
+        // 200-byte strings of one repeated multi-byte character
+        extras.push(std::iter::repeat(ch).take(200 / ch.len_utf8()).collect());
+    }
+    for n in [1usize, 2, 3, 4, 5, 6, 7, 8, 9, 16, 31, 32, 33, 64, 255, 256, 1000, 65536] {
+        extras.push("\u{7f}".repeat(n));
+        extras.push("\u{10ffff}".repeat(n));
+    }
+    let extras = dedup(extras);
+    let r = ctx.par_range("1b-idl_hash:keywords-unicode-numeric-long", extras.len() as u64, 64, || (), |_, i, rep| {
+        checks::check_hash(&extras[i as usize], rep);
+    });
+    rep.merge(r);
+
+    // ---- part 2: Label consistency on all ordered pairs
+    let ls = label_set(&coll, tier);
+    let n2 = ls.len() as u64;
+    let r = ctx.par_range("2-Label:all-ordered-pairs", n2 * n2, 512, || (), |_, i, rep| {
+        checks::check_label_pair(&ls[(i / n2) as usize], &ls[(i % n2) as usize], rep);
+    });
+    rep.merge(r);
+
+    // ---- part 4: cross decoding
+    let lam = lambda(&coll, tier);
+    let nl = lam.len() as u64;
+    let single_shapes = [Shape::Rec1, Shape::VarNat, Shape::VarUnit];
+    let r = ctx.par_range("4a-cross:single-label-shapes", nl * 3, 8, || (), |_, i, rep| {
+        let c = CrossCase { shape: single_shapes[(i % 3) as usize], l: &lam[(i / 3) as usize], m: "", extras: true };
+        checks::check_cross(&c, rep, &lim);
+    });
+    rep.merge(r);
+    let r = ctx.par_range("4b-cross:record-two-labels-all-ordered-pairs", nl * nl, 16, || (), |_, i, rep| {
+        let (a, b) = ((i / nl) as usize, (i % nl) as usize);
+        if a == b {
+            return;
+        }
+        let c = CrossCase { shape: Shape::Rec2, l: &lam[a], m: &lam[b], extras: false };
+        checks::check_cross(&c, rep, &lim);
+    });
+    rep.merge(r);
+
+    // ---- part 5a: duplicates in text
+    let dp = dup_pairs(&coll, &lam);
+    let nf = checks::DUP_FORMS.len() as u64;
+    let r = ctx.par_range("5a-text-parsers:duplicate-and-distinct-pairs", dp.len() as u64 * nf, 64, || (), |_, i, rep| {
+        let (a, b, ia, ib) = &dp[(i / nf) as usize];
+        checks::check_dup_text(checks::DUP_FORMS[(i % nf) as usize], a, b, *ia, *ib, rep);
+    });
+    rep.merge(r);
+    let sh = shorthand_cases(&coll);
+    let r = ctx.par_range("5a-text-parsers:positional-fields", sh.len() as u64, 4, || (), |_, i, rep| {
+        let (t, is_type, reject) = &sh[i as usize];
+        checks::check_shorthand(t, *is_type, *reject, rep);
+    });
+    rep.merge(r);
+
+    // ---- part 5b: macros
+    let pc = macros::pair_cases();
+    if pc.len() != macros::MACRO_LABELS.len() * macros::MACRO_LABELS.len() {
+        machinery_failure("macro pair table out of sync with MACRO_LABELS");
+    }
+    let tc = macros::triple_cases();
+    let r = ctx.par_range("5b-macros:record!/variant!-all-ordered-pairs", pc.len() as u64, 16, || (), |_, i, rep| {
+        macros::check_pair_case(&pc[i as usize], rep);
+    });
+    rep.merge(r);
+    let r = ctx.par_range("5b-macros:record!/variant!-triples+field!", tc.len() as u64 + 1, 64, || (), |_, i, rep| {
+        if (i as usize) < tc.len() {
+            macros::check_triple_case(&tc[i as usize], rep);
+        } else {
+            macros::check_field_macro(rep);
+        }
+    });
+    rep.merge(r);
+    let mut snames: Vec<String> = SERVICE_NAMES.iter().map(|s| s.to_string()).collect();
+    for (a, b) in coll.all_pairs() {
+        snames.push(a);
+        snames.push(b);
+    }
+    let snames = dedup(snames);
+    let ns = snames.len() as u64;
+    let r = ctx.par_range("5b-macros:service!-all-ordered-pairs", ns * ns, 64, || (), |_, i, rep| {
+        checks::check_service_macro(&snames[(i / ns) as usize], &snames[(i % ns) as usize], rep);
+    });
+    rep.merge(r);
+    notes.extend(macros::observations());
+
+    // ---- part 5c: binary header
+    let ids_a: Vec<u64> = if tier == Tier::Quick { vec![0, 1, 5, 4294967295] } else { vec![0, 1, 5, 1 << 31, 4294967295, 4294967296] };
+    let mut seqs = sequences(&ids_a, tier.pick(3, 4));
+    let n_in_range = seqs.len();
+    for s in sequences(&[0, 4294967295, 4294967296, 4294967301, u64::MAX], 2) {
+        if s.iter().any(|i| *i > u32::MAX as u64) && !seqs.contains(&s) {
+            seqs.push(s);
+        }
+    }
+    let hk = [("record", "direct"), ("record", "opt"), ("variant", "direct"), ("variant", "opt")];
+    let oracle_err = std::sync::Mutex::new(None::<String>);
+    let r = ctx.par_range("5c-binary-header:all-id-sequences", seqs.len() as u64 * 4, 16, || (), |_, i, rep| {
+        let (kind, mode) = hk[(i % 4) as usize];
+        if let Err(e) = checks::check_header(kind, mode, &seqs[(i / 4) as usize], rep, &lim) {
+            *oracle_err.lock().unwrap() = Some(e);
+        }
+    });
+    rep.merge(r);
+    if let Some(e) = oracle_err.into_inner().unwrap() {
+        machinery_failure(&e);
+    }
+
+    // ---- part 6: derive macro
+    let dr = derive::run_derive(&coll, &mut rep, &lim, None);
+    if let Some(e) = dr.machinery_error {
+        machinery_failure(&e);
+    }
+
+    // every violation is re-checked once (same input twice => same observation)
+    let mut confirmed = Report::new();
+    for v in &rep.violations {
+        if v.case["part"].as_str() != Some("derive") {
+            run_case(&v.case, &coll, &lim, &mut confirmed);
+        }
+    }
+    for v in &rep.violations {
+        if v.case["part"].as_str() != Some("derive") && !confirmed.violations.iter().any(|c| c.key == v.key) {
+            notes.push(format!("NOT DETERMINISTIC: violation {} did not reproduce on the immediate re-check", v.key));
+        }
+    }
+
+    rep.states = rep.evaluations;
+    rep.notes.extend(notes);
+    let mut extra = json!({
+        "scope": {
+            "part1_strings_over_40_char_alphabet": {"max_len": maxlen, "count": total1},
+            "part1_extra_strings": extras.len(),
+            "part2_labels": ls.len(),
+            "part2_ordered_pairs": n2 * n2,
+            "part3_colliding_pairs": coll.all_pairs().len(),
+            "part4_label_alphabet": lam.len(),
+            "part4_single_label_cases": nl * 3,
+            "part4_two_label_ordered_pairs": nl * nl - nl,
+            "part5a_label_pairs": dp.len(),
+            "part5a_forms": nf,
+            "part5a_cases": dp.len() as u64 * nf,
+            "part5a_positional_cases": sh.len(),
+            "part5b_macro_labels": macros::MACRO_LABELS.len(),
+            "part5b_record_variant_pair_cases": pc.len() * 2,
+            "part5b_triple_cases": tc.len() * 2,
+            "part5b_service_names": snames.len(),
+            "part5b_service_pair_cases": ns * ns,
+            "part5c_id_alphabet": ids_a,
+            "part5c_sequences_in_alphabet": n_in_range,
+            "part5c_sequences_total": seqs.len(),
+            "part5c_cases": seqs.len() * 4,
+        }
+    });
+    if let (Value::Object(e), Value::Object(d)) = (&mut extra, dr.summary) {
+        for (k, v) in d {
+            e.insert(k, v);
+        }
+    }
+    let code = finish(
+        &ctx,
+        rep,
+        "E1 scopes: (1) candid::idl_hash and Label::Named(s).get_id() = R7 hash on every string of length <= 3 (thorough 4) over a 40-character alphabet plus keywords / Unicode / numeric-looking / 200-byte strings; (2) Label eq, ne, cmp, partial_cmp, <, std::hash, HashMap / BTreeMap / HashSet lookup, check_unique, Field and IDLField equality on all ordered pairs of a label set mixing Named / Id / Unnamed spellings of the same ids; (3) colliding names found deterministically (wrap-count analysis of 5-byte strings, hash-map brute force, meet-in-the-middle preimages); (4) every type spelling x value spelling x source order of record {L:nat}, variant {L:nat}, variant {L}, record {L:nat; M:text} annotate and encode to identical bytes, which the strict reference decoder accepts with ascending ids and the real decoder decodes at every type spelling and untyped; (5) equal ids rejected (distinct ids accepted, sorted) by the type and value text parsers in 11 syntactic positions, by record!/variant!/service! (panic = rejection), and by the header parser on all id sequences of length <= 3 (thorough 4) over the id alphabet in record and variant entries; (6) derived types for every label of the list (direct, raw identifier, serde rename) equal the parser's types (ids, subtype::equal, identical bytes, strict reference decode, round trip), two-field structs over all ordered label pairs, one struct and one enum with all labels, and colliding pairs fail to compile through the derive macro's uniqueness assertion. Non-trivial = hash sums exceeding 2^32 (1), equal ids under different spellings (2), spelling order != id order (4, 6), duplicate-id inputs (5).",
+        &[
+            "R7 (hash) and R2 (binary grammar, strict) are correct readings of spec/Candid.md",
+            "method names of services are identified by name, not by hash (spec): service! and the text parser may accept distinct names with equal hash",
+            "record!/variant!/field! read a decimal u32 token as an id and any other token as a name; other numeric-looking tokens and raw identifiers are recorded as observations only",
+            "printer defects visible in the Display text of derived types belong to C11/C12 and are recorded as notes",
+            "the derive macro is exercised on a finite label list (compile time)",
+        ],
+        extra,
+    );
+    std::process::exit(code);
+}
+
+/// Re-run one recorded case.
+fn run_case(case: &Value, coll: &Collisions, lim: &Limits, rep: &mut Report) -> bool {
+    let s = |k: &str| case[k].as_str().unwrap_or("").to_string();
+    match case["part"].as_str().unwrap_or("") {
+        "hash" => checks::check_hash(&s("s"), rep),
+        "label" => match (LSpec::from_json(&case["a"]), LSpec::from_json(&case["b"])) {
+            (Some(a), Some(b)) => checks::check_label_pair(&a, &b, rep),
+            _ => return false,
+        },
+        "cross" => match Shape::from_name(&s("shape")) {
+            Some(shape) => {
+                let (l, m) = (s("l"), s("m"));
+                checks::check_cross(&CrossCase { shape, l: &l, m: &m, extras: case["extras"].as_bool().unwrap_or(false) }, rep, lim)
+            }
+            None => return false,
+        },
+        "dup-text" => {
+            let form = s("form");
+            let Some(f) = checks::DUP_FORMS.iter().find(|x| **x == form) else { return false };
+            checks::check_dup_text(f, &s("a"), &s("b"), case["id_a"].as_u64().unwrap_or(0) as u32, case["id_b"].as_u64().unwrap_or(0) as u32, rep)
+        }
+        "shorthand" => checks::check_shorthand(&s("text"), case["is_type"].as_bool().unwrap_or(true), case["reject"].as_bool().unwrap_or(true), rep),
+        "service-macro" => checks::check_service_macro(&s("m1"), &s("m2"), rep),
+        "macro" => {
+            let labs: Vec<String> = case["labels"].as_array().map(|a| a.iter().map(|x| x.as_str().unwrap_or("").to_string()).collect()).unwrap_or_default();
+            match labs.len() {
+                1 => macros::check_field_macro(rep),
+                2 => match macros::pair_cases().iter().find(|c| c.a == labs[0] && c.b == labs[1]) {
+                    Some(c) => macros::check_pair_case(c, rep),
+                    None => return false,
+                },
+                3 => match macros::triple_cases().iter().find(|c| c.labels.iter().zip(labs.iter()).all(|(a, b)| a == b)) {
+                    Some(c) => macros::check_triple_case(c, rep),
+                    None => return false,
+                },
+                _ => return false,
+            }
+        }
+        "header" => {
+            let ids: Vec<u64> = case["ids"].as_array().map(|a| a.iter().filter_map(|x| x.as_u64()).collect()).unwrap_or_default();
+            if let Err(e) = checks::check_header(&s("kind"), &s("mode"), &ids, rep, lim) {
+                machinery_failure(&e);
+            }
+        }
+        "derive" => {
+            let r = derive::run_derive(coll, rep, lim, None);
+            if let Some(e) = r.machinery_error {
+                machinery_failure(&e);
+            }
+        }
+        _ => return false,
+    }
+    true
+}
+
+fn replay_case(path: &str, coll: &Collisions, lim: &Limits) -> i32 {
+    let text = match std::fs::read_to_string(path) {
+        Ok(t) => t,
+        Err(e) => machinery_failure(&format!("cannot read {path}: {e}")),
+    };
+    let v: Value = match serde_json::from_str(&text) {
+        Ok(v) => v,
+        Err(e) => machinery_failure(&format!("{path} is not JSON: {e}")),
+    };
+    let mut rep = Report::new();
+    if !run_case(&v["case"], coll, lim, &mut rep) {
+        machinery_failure(&format!("{path}: unknown case format"));
+    }
+    // a derive replay re-runs the whole corpus: report only the recorded key
+    if v["case"]["part"].as_str() == Some("derive") {
+        if let Some(k) = v["key"].as_str() {
+            rep.violations.retain(|x| x.key == k);
+        }
+    }
+    for x in &rep.violations {
+        println!("REPRODUCED {} :: {}", x.key, x.msg);
+    }
+    if rep.violations.is_empty() {
+        println!("not reproduced: implementation and specification agree on this case");
+        0
+    } else {
+        1
+    }
 }
